@@ -388,15 +388,15 @@ def vclass(v):
 # --------------------------------------------------------------------------
 TIERS = {
     "C14": {
-        "quick": dict(runs=480, hashseeds=8, pool=dict(n_corpus=20, n_random=36, n_big=3, n_bad=12), n_respell=160, n_mutate=40, wall=1500),
+        "quick": dict(runs=1000, hashseeds=8, pool=dict(n_corpus=20, n_random=36, n_big=3, n_bad=12), n_respell=160, n_mutate=40, wall=1500),
         "thorough": dict(runs=10000, hashseeds=64, pool=dict(n_corpus=60, n_random=150, n_big=10, n_bad=30), n_respell=400, n_mutate=160, wall=3 * 3600, knobs=dict(max_ops=14, max_warmup=100)),
     },
     "C12": {
-        "quick": dict(runs=600, hashseeds=4, pool=dict(n_corpus=20, n_random=40, n_big=4, n_bad=0), n_respell=12, n_mutate=0, wall=1200),
+        "quick": dict(runs=1200, hashseeds=8, pool=dict(n_corpus=20, n_random=40, n_big=4, n_bad=0), n_respell=12, n_mutate=0, wall=1200),
         "thorough": dict(runs=30000, hashseeds=16, pool=dict(n_corpus=80, n_random=300, n_big=20, n_bad=0), n_respell=60, n_mutate=0, wall=2 * 3600, knobs=dict(max_ops=24, max_warmup=60)),
     },
     "C16": {
-        "quick": dict(runs=600, hashseeds=4, pool=dict(n_corpus=20, n_random=40, n_big=4, n_bad=0), n_respell=12, n_mutate=0, wall=1200),
+        "quick": dict(runs=1500, hashseeds=8, pool=dict(n_corpus=20, n_random=40, n_big=4, n_bad=0), n_respell=12, n_mutate=0, wall=1200),
         "thorough": dict(runs=30000, hashseeds=16, pool=dict(n_corpus=80, n_random=300, n_big=20, n_bad=0), n_respell=60, n_mutate=0, wall=2 * 3600, knobs=dict(max_ops=24, max_warmup=60)),
     },
 }
